@@ -280,4 +280,5 @@ def h_canary():
 
 
 def harnesses():
-    return [h_roots(), h_registration_is_weak(), h_monitored_container_is_weak(), h_singleton(), h_canary()]
+    from .C13 import h_sweep          # reclaiming the bookkeeping of dead instances is the sweep's contract (C13's module)
+    return [h_sweep(), h_roots(), h_registration_is_weak(), h_monitored_container_is_weak(), h_singleton(), h_canary()]
